@@ -40,8 +40,39 @@ ExplicitBase(d, ids) ==
       rest   == SelectSeq(ValidSeq(d), LAMBDA p : \A i \in 1..Len(listed) : listed[i] # p)
   IN  listed \o rest
 
+IsDerivedPos(d, p) == Dims[d].der[p].is
+NonDerivedSeq(d) == SelectSeq(ValidSeq(d), LAMBDA p : ~IsDerivedPos(d, p))
+
+\* derived items placed at a given spot (payload order among themselves).  A derived
+\* item whose anchor is unknown, absent, or itself derived goes to the bottom.
+DerPlace(d, p) ==
+  LET r == Dims[d].der[p] IN
+  IF r.at \in {"top", "bottom"} THEN r.at
+  ELSE IF r.at \in {"before", "after"} /\ r.ref \in ValidPos(d) /\ ~IsDerivedPos(d, r.ref)
+       THEN r.at ELSE "bottom"
+DerivedAtSpot(d, where, ref) ==
+  SelectSeq(ValidSeq(d), LAMBDA p : IsDerivedPos(d, p) /\ DerPlace(d, p) = where
+                                    /\ (where \in {"before", "after"} => Dims[d].der[p].ref = ref))
+
+\* explicit order: only the base (non-derived) items are listed / left over; every
+\* derived item is then re-placed at its own anchor
+ExplicitBaseND(d, ids) ==
+  LET known  == SelectSeq(ids, LAMBDA id : id \in ValidIds(d) /\ ~IsDerivedPos(d, PosOfId(d, id)))
+      listed == Dedup([i \in 1..Len(known) |-> PosOfId(d, known[i])])
+      rest   == SelectSeq(NonDerivedSeq(d), LAMBDA p : \A i \in 1..Len(listed) : listed[i] # p)
+  IN  listed \o rest
+
+RECURSIVE WithDerived(_, _)
+WithDerived(d, base) ==
+  IF base = << >> THEN << >>
+  ELSE DerivedAtSpot(d, "before", Head(base)) \o << Head(base) >>
+       \o DerivedAtSpot(d, "after", Head(base)) \o WithDerived(d, Tail(base))
+
 BaseSeq(d, dc) ==
-  IF dc.order.type = "explicit" THEN ExplicitBase(d, dc.order.ids) ELSE ValidSeq(d)
+  IF dc.order.type = "explicit"
+  THEN DerivedAtSpot(d, "top", 0) \o WithDerived(d, ExplicitBaseND(d, dc.order.ids))
+       \o DerivedAtSpot(d, "bottom", 0)
+  ELSE ValidSeq(d)
 
 \* --- anchored order -------------------------------------------------------
 \* subtotal indexes (definition order) placed at a given spot
